@@ -45,7 +45,8 @@ ASSUMPTIONS = [
 ]
 RULE = ("databases of two kinds: (a) real scheduler runs of generated workflows (done, failed, caught-failed, CSE-collapsed twins of "
         "succeeding and of failing jobs, cache hits on a second execution incl. ultimate-reduction hits of check_valid=shallow tasks and CSE "
-        "hits on finished jobs, failing siblings, workflows aborted by a scheduler task while hits are in flight, jobs and whole "
+        "hits on finished jobs, failing siblings, failing tasks whose ErrorValue exceeds the backend's max_value_size (leaf / nested, caught / "
+        "uncaught), workflows aborted by a scheduler task while hits are in flight, jobs and whole "
         "executions whose end is never recorded), observed after EVERY writing commit of the real backend (kill points: the state a "
         "killed process leaves; a copy is examined whenever a row shape not yet examined in the run appears) and "
         "(b) raw sqlite rows covering every combination of end_time NULL x cached x {no call_hash, dangling call_hash, call node with "
@@ -112,6 +113,15 @@ def _tasks():
         raise ValueError(x)
 
     @task(namespace="c33v")
+    def bigboom(x):
+        # the serialized ErrorValue (10 kB message) exceeds the backend's max_value_size (MAX_VALUE_SIZE below)
+        raise ValueError("E%d:" % x + "x" * 10000)
+
+    @task(namespace="c33v")
+    def bignest(x):
+        return bigboom(x)
+
+    @task(namespace="c33v")
     def wa(kind, x):
         return slow_ok(x) if kind == "ok" else slow_boom(x)
 
@@ -147,6 +157,10 @@ def _tasks():
                 es = [inc_sh(x)]
             elif kind == "cse_done":
                 es = [again(ok(x), x)]
+            elif kind == "bigboom":
+                es = [bigboom(x)]
+            elif kind == "bignest":
+                es = [bignest(x)]
             elif kind == "kill":
                 es = [kill(x)]
             else:
@@ -164,9 +178,20 @@ def gen_spec(rng):
     spec = []
     for _ in range(n):
         kind = rng.choice(["ok", "ok", "boom", "twin_ok", "twin_boom", "twin_boom", "hang", "shallow", "shallow", "cse_done",
-                           "cse_done", "kill"])
+                           "cse_done", "kill", "bigboom", "bignest"])
         spec.append((kind, rng.randrange(3), rng.random() < 0.7))
     return tuple(spec)
+
+
+MAX_VALUE_SIZE = 4000      # [backend] max_value_size of every real-run database: ordinary values and errors are < 1 kB
+
+
+def run_backend(path):
+    from redun.backends.db import RedunBackendDb
+    from redun.config import create_config_section
+    backend = RedunBackendDb(db_uri="sqlite:///" + path, config=create_config_section({"max_value_size": str(MAX_VALUE_SIZE)}))
+    backend.load(migrate=False)
+    return backend
 
 
 SHAPE_SQL = """
@@ -208,9 +233,9 @@ def real_run_db(rng, path, seen=None, keep_dir=None, fixed_runs=None):
     """Populate the database at `path` by real scheduler runs. Returns (description, kill-point snapshots)."""
     from redun import Scheduler
     from redun.backends.db import RedunBackendDb
+    from redun.backends.db import RedunDatabaseError
     main = _tasks()["main"]
-    backend = RedunBackendDb(db_uri="sqlite:///" + path)
-    backend.load(migrate=False)
+    backend = run_backend(path)
     kp = KillPoints(backend, path, seen, keep_dir) if seen is not None else None
     orig_end = backend.record_job_end
     crash_root = [False]
@@ -243,6 +268,10 @@ def real_run_db(rng, path, seen=None, keep_dir=None, fixed_runs=None):
                 out = "ok"
             except (ValueError, RuntimeError) as e:
                 out = type(e).__name__
+            except RedunDatabaseError as e:
+                # an error too large to store: the unchanged scheduler dies with the database error (jobs stay RUNNING)
+                out = type(e).__name__
+                backend.session.rollback()
             desc.append([list(map(list, spec)), salt, crash_root[0], out])
     finally:
         backend.record_job_end = orig_end
@@ -523,6 +552,11 @@ def run(ctx, only=None):
                    (("shallow", 1, False), ("kill", 0, False)),
                    (("cse_done", 2, False), ("kill", 0, False)),
                    (("shallow", 1, True), ("cse_done", 2, True), ("boom", 1, False))])
+        # corpus: failing tasks whose ErrorValue is larger than max_value_size, leaf / nested, caught / uncaught
+        real_case([(("ok", 1, False), ("bigboom", 1, True)),
+                   (("bignest", 2, True), ("ok", 1, False)),
+                   (("bigboom", 1, False),),
+                   (("ok", 2, False), ("bignest", 1, False), ("boom", 1, True))])
         p = fresh()
         todo.append(check_db(ctx, "raw-shapes", raw_shape_db(ctx.rng, p, exhaustive=True), p, None))
         quick = ctx.tier == "quick"
